@@ -15,7 +15,7 @@ for l in open('/tmp/seed-test.json'):
 print('baseline tests passing:', len(base&passed), 'of', len(base), 'missing', sorted(base-passed)[:3])
 PY
 (cd $wt && go build -o /tmp/borno-seed-$name . ) && (cd /repo && go build -o /tmp/borno-orig . )
-for d in /tmp/seed-$name/*.bn; do
+for d in ${SEEDDIR:-/tmp/seed-$name}/*.bn; do
   [ -f "$d" ] || continue
   timeout 10 /tmp/borno-orig $d > /tmp/o1.txt 2>/tmp/e1.txt; s1=$?
   timeout 10 /tmp/borno-seed-$name $d > /tmp/o2.txt 2>/tmp/e2.txt; s2=$?
